@@ -164,31 +164,11 @@ example : vecL (runCfg true Mem.create (crashWitness ++ [.crash 40])) = [{ id :=
 example : vecL (runCfg false Mem.create (crashWitness ++ [.crash 40])) = [] ∧
     (runCfg false Mem.create (crashWitness ++ [.crash 40])).frames.map (fun f => (f.id, f.status)) = [(0, .active)] := by decide
 
-theorem applyRecords_ve (m : Mem) (recs : List (Nat × Entry)) (eng : Bool) (m1 : Mem) (δ : Delta)
-    (h : applyRecords m recs eng = some (m1, δ)) : m1.vecEnabled = m.vecEnabled := by
-  unfold applyRecords at h
-  by_cases he : recs.isEmpty
-  · simp only [he, if_true] at h; cases h; rfl
-  · simp only [he] at h
-    generalize applyLoop _ recs = r at h
-    cases r with
-    | none => simp at h
-    | some st =>
-      simp only [Bool.false_eq_true, if_false] at h
-      cases h; rfl
-
 /-- the two recoveries differ only while embeddings are pending and vectors are off on disk -/
-theorem recoverWalCfg_same (m1 : Mem) (ft : Nat) (h : m1.vecEnabled = true) :
+theorem recoverWalCfg_same (m1 : Mem) (ft : Nat) (h : m1.vecEnabled = true ∨ pendingHasEmb m1.pending = false) :
     m1.recoverWalCfg true ft = m1.recoverWalCfg false ft := by
-  unfold Mem.recoverWalCfg
-  split
-  · rfl
-  · cases hx : applyRecords m1 m1.pending true with
-    | none => rfl
-    | some p =>
-      obtain ⟨ma, δ⟩ := p
-      have hve : ma.vecEnabled = true := by rw [applyRecords_ve _ _ _ _ _ hx]; exact h
-      simp [hve]
+  unfold Mem.recoverWalCfg Mem.enableVecForReplay
+  rcases h with h | h <;> simp [h]
 
 /-- `Core.crash` is one of the two variants (whichever the shared model currently mirrors) -/
 theorem crash_is_a_variant :
